@@ -923,6 +923,11 @@ class Interp:
             if isinstance(base0, (set, frozenset)):
                 a2 = [set(self.seq(a)) if not isinstance(a, (str, int)) or fn.attr not in ('add', 'discard') else a for a in args]
                 return getattr(base0, fn.attr)(*a2)
+        if isinstance(fn, ast.Name) and fn.id == 'enumerate' and 'enumerate' not in env and (len(args) == 2 or 'start' in kwargs) and set(kwargs) <= {'start'}:
+            st_ = args[1] if len(args) == 2 else kwargs['start']
+            if not isinstance(st_, int) or isinstance(st_, bool):
+                raise AnalysisError('heap model: enumerate start %r' % (st_,))
+            return [(i, v) for i, v in enumerate(self.seq(args[0]), st_)]          # enumerate(xs, start)
         if isinstance(fn, ast.Name) and fn.id == 'enumerate' and len(args) == 1 and isinstance(args[0], (str, PyIter)):
             return [(i, v) for i, v in enumerate(self.seq(args[0]))]
         if isinstance(fn, ast.Name) and fn.id == 'len' and len(args) == 1 and isinstance(args[0], tuple) and args[0] and args[0][0] == 'linesof':
